@@ -585,8 +585,67 @@ impl<'a, S: BitmapSlice> FuseDevWriter<'a, S> {
         Ok(())
     }
 
+    /// as src/transport/fusedev/mod.rs async_commit: (0,0) -> Ok(0); otherwise ONE device write
+    /// (pwrite/writev) -- note: unlike `commit` it does not look at `buffered`.
     pub async fn async_commit(&mut self, other: Option<&Writer<'a, S>>) -> io::Result<usize> {
-        self.commit(other)
+        let o: &[u8] = match other {
+            Some(Writer::FuseDev(w)) => w.as_slice(),
+            _ => &[],
+        };
+        let res = match (self.len, o.len()) {
+            (0, 0) => Ok(0),
+            (0, _) => ghost::emit(self.fd, &[o]),
+            (_, 0) => ghost::emit(self.fd, &[self.as_slice()]),
+            (_, _) => ghost::emit(self.fd, &[self.as_slice(), o]),
+        };
+        res.map_err(|_e| io::Error::from(io::ErrorKind::Other))
+    }
+
+    pub async fn async_write_from_at<F: crate::file_traits::AsyncFileReadWriteVolatile>(
+        &mut self,
+        src: &F,
+        count: usize,
+        off: u64,
+    ) -> io::Result<usize> {
+        self.check_available_space(count)?;
+        let buf = unsafe { crate::file_buf::FileVolatileBuf::from_raw_ptr(self.ptr, 0, count) };
+        let (res, _) = src.async_read_at_volatile(buf, off).await;
+        match res {
+            Ok(cnt) => {
+                self.account_written(cnt);
+                if self.buffered {
+                    Ok(cnt)
+                } else {
+                    ghost::emit(self.fd, &[unsafe { std::slice::from_raw_parts(self.ptr, cnt) }])
+                        .map_err(|_e| io::Error::from(io::ErrorKind::Other))
+                }
+            }
+            Err(e) => Err(e),
+        }
+    }
+}
+
+#[cfg(feature = "async-io")]
+impl<'a, S: BitmapSlice> Reader<'a, S> {
+    pub async fn async_read_to_at<F: crate::file_traits::AsyncFileReadWriteVolatile>(
+        &mut self,
+        dst: &F,
+        count: usize,
+        off: u64,
+    ) -> io::Result<usize> {
+        let n = cmp::min(count, self.len - self.pos);
+        if n == 0 {
+            return Ok(0);
+        }
+        let bufs = vec![unsafe { crate::file_buf::FileVolatileBuf::from_raw_ptr(self.ptr.add(self.pos), n, n) }];
+        let (res, _) = dst.async_write_vectored_at_volatile(bufs, off).await;
+        match res {
+            Ok(cnt) => {
+                self.pos += cnt;
+                Ok(cnt)
+            }
+            Err(e) => Err(e),
+        }
     }
 }
 
@@ -695,6 +754,17 @@ impl<'a, S: BitmapSlice> Writer<'a, S> {
     pub async fn async_commit(&mut self, other: Option<&Writer<'a, S>>) -> io::Result<usize> {
         match self {
             Writer::FuseDev(w) => w.async_commit(other).await,
+            _ => Err(std::io::Error::from_raw_os_error(libc::EINVAL)),
+        }
+    }
+    pub async fn async_write_from_at<F: crate::file_traits::AsyncFileReadWriteVolatile>(
+        &mut self,
+        src: &F,
+        count: usize,
+        off: u64,
+    ) -> io::Result<usize> {
+        match self {
+            Writer::FuseDev(w) => w.async_write_from_at(src, count, off).await,
             _ => Err(std::io::Error::from_raw_os_error(libc::EINVAL)),
         }
     }
